@@ -19,9 +19,10 @@ FD = "<graphql_query::directives::%s as core::convert::TryFrom<&async_graphql_pa
 # shared by several entry sets
 COMMON = {
     ("<ir::value::FieldValue as core::cmp::PartialOrd>::partial_cmp", "assert!()"):
-        (2, "INVARIANT", "floats inside FieldValue are finite: every constructor goes through FiniteF64 / rejects NaN,inf"),
+        (2, "GUARD:C12-r2", "floats that reach a comparison are finite: argument validation rejects NaN / infinities (is_valid_value row "
+            "`Float64:inf`, decided under C12 r2 / C17 r3), the TryFrom constructors reject them, an adapter returning one breaks its contract"),
     ("ir::value::FieldValue::structural_eq", "assert!()"):
-        (2, "INVARIANT", "same: FieldValue never holds NaN/inf"),
+        (2, "GUARD:C12-r2", "same: non-finite floats are refused by argument validation (fixed 1f2da7c; the variant itself is public)"),
     ("<ir::value::FieldValue as core::convert::From<isize>>::from", 'expect("failed to convert isize to i64")<-TryInto::try_into'):
         (1, "LOCAL", "isize is at most 64 bits on supported targets"),
     ("<ir::value::FieldValue as core::convert::From<usize>>::from", 'expect("failed to convert usize to u64")<-TryInto::try_into'):
@@ -208,7 +209,8 @@ C09.update({
     (X + "compute_component", "unreachable!(internal error: entered unreachable code)"): (1, "INVARIANT", "an edge and a fold never share an eid (indexer code 14)"),
     (X + "compute_context_field_with_separate_value", 'expect("query was not returned")<-Option::take'): (1, "GUARD:G-CARRIER", "C02 r1"),
     (X + "compute_context_field_with_separate_value", "index &BTreeMap<ir::FieldRef, interpreter::TaggedValue>"): (1, "INVARIANT", "a tag from an outer component is in imported_tags of every enclosing fold (C11 r3/r4)"),
-    (X + "compute_context_field_with_separate_value", "index &BTreeMap<ir::Vid, Option<V>>"): (2, "INVARIANT", "the tagged vertex was resolved before the use (C11 r3)"),
+    # one of the two sites is a listed known finding (dynamic hint for a tag defined on the vertex being filtered): audited count 1 of 2
+    (X + "compute_context_field_with_separate_value", "index &BTreeMap<ir::Vid, Option<V>>"): (1, "INVARIANT", "the tagged vertex was resolved before the use (C11 r3)"),
     (X + "compute_context_field_with_separate_value", "unwrap<-Vec::pop"): (1, "LOCAL", "pops what the closure before the adapter call pushed"),
     (X + "compute_fold", "assert_eq!(len,.folded_values)"): (1, "INVARIANT", "output names are unique across the query (indexer codes 3, 15)"),
     (X + "compute_fold", "debug_assert_eq!()"): (1, "LOCAL", "both sides say whether the source vertex exists"),
@@ -278,7 +280,7 @@ C09.update({
     (HI + "dynamic::DynamicallyResolvedValue::<'a>::compute_candidate_from_tagged_value_with_imported_tags", "index &BTreeMap<ir::FieldRef, interpreter::TaggedValue>"): (1, "INVARIANT", "imported tags (C11 r4)"),
     (HI + "dynamic::DynamicallyResolvedValue::<'a>::resolve_fold_specific_field", "panic!()"): (1, "GUARD:G-OPTYPES", "a one_of tag is list-typed"),
     (HI + "dynamic::DynamicallyResolvedValue::<'a>::resolve_fold_specific_field", "unreachable!()"): (1, "LOCAL", "dynamically_required_property only builds values for the seven supported operators"),
-    (HI + "dynamic::compute_candidate_from_operation", "panic!()"): (1, "GUARD:G-OPTYPES", "a one_of tag is list-typed; a non-list value breaks the adapter contract"),
+    # dynamic::compute_candidate_from_operation panic!(): NOT audited any more - a nullable list tag legitimately holds null (known finding)
     (HI + "dynamic::compute_candidate_from_operation", "unreachable!()"): (1, "LOCAL", "only the seven supported operators"),
     (HI + "filters::candidate_from_statically_evaluated_filters", 'expect("not_one_of operand was not a list")<-FieldValue::as_slice'): (1, "GUARD:G-ARGS", "typed [T]!"),
     (HI + "filters::candidate_from_statically_evaluated_filters", 'expect("query variable was not list-typed")<-FieldValue::as_vec_with'): (1, "GUARD:G-ARGS", "typed [T]!"),
